@@ -97,6 +97,9 @@ func (q *Query) endConditional() {
 	}
 
 	elem := q.lastCallStackElem()
+	if _, exists := elem.call.Args[field]; exists {
+		panic(fmt.Sprintf("%s: %s", duplicateArgErrorMessage, field))
+	}
 	elem.call.Args[field] = &Condition{Op: BETWEEN, Value: []interface{}{low, high}}
 
 	q.conditional = nil
